@@ -244,6 +244,7 @@ def recipe_for_hint(hint, depth=0, dates=True, objects=True):
     raise Unsupported(h)
 
 
+NONE_FOR_REQUIRED = [True]  # module switch: occasionally pass None for a required top-level field
 EXTRAS = [True]  # module switch: generate undeclared extra fields for Extra.allow models
 
 
@@ -282,6 +283,10 @@ def model_recipe(cls, depth=0, dates=True, objects=True, required_only=False):
             continue
         key = f.alias
         if f.required:
+            if depth == 0 and NONE_FOR_REQUIRED[0]:
+                # now and then an explicit None for a mandatory field (refused by most models; whatever IS accepted
+                # has to behave like any other valid instance)
+                sub = st.one_of(*([sub] * 24), st.none())
             fields[key] = (sub, True)
         elif not required_only and depth <= 3:
             fields[key] = (sub, False)
